@@ -514,7 +514,10 @@ class Lib:
         k = self.wrap_index(idx, a.shape[0])
         if a.ndim == 1:
             if a.fields is not None:
-                return Opaque('record', rec=(a, k), getitem=lambda I, nm, a=a, k=k: a.fields[nm].f((k,)))
+                def rec_set(I, nm, v, a=a, k=k):
+                    # writing a field of a record writes through to the structured array (numpy gives a view)
+                    self.arr_setitem(a.fields[nm], k, v)
+                return Opaque('record', rec=(a, k), getitem=lambda I, nm, a=a, k=k: a.fields[nm].f((k,)), setitem=rec_set)
             return a.f((k,))
         base = a
         r = Arr(a.shape[1:], lambda ix: base.f((k,) + tuple(ix)), a.dtype)
